@@ -2,6 +2,8 @@
 
 package mimetype
 
+import "fmt"
+
 func vfExecMore8(f []string, op string) (string, bool) { return vfExecMore9(f, op) }
 
 func (g *vfGen) runMore8(slice string) bool {
@@ -66,6 +68,18 @@ func (g *vfGen) genC11() {
 			c := append(append(append([]byte{}, txt[:pos]...), late...), txt[pos:]...)
 			for _, lim := range []int{0, len(c) + 1, 8192, pos + len(late), pos, 3072} {
 				g.emit(vfOp("walk", c, lim))
+			}
+		}
+	}
+	// extensions whose type is one of the three text types (under the root, under text/plain, under html): their
+	// results carry the charset exactly as the built-in nodes' results do
+	for _, parent := range []string{"r", "0", "3"} {
+		for _, mt := range []string{"text/plain", "text/html", "text/xml"} {
+			for _, pred := range []string{"always", "prefix-" + vfHex([]byte("log:")), "contains-" + vfHex([]byte("caf"))} {
+				sc := fmt.Sprintf("%s:%s:%s:%s:~", parent, pred, vfHex([]byte(mt)), vfHex([]byte(".vt")))
+				for _, in := range [][]byte{[]byte("log: plain ascii"), []byte("log: caf\xc3\xa9"), []byte("log: caf\xe9"), []byte("log: Wait\x85 caf"), {}, []byte("caf\xe9 <html>")} {
+					g.emit(vfOp("xwalk", sc, in, 0))
+				}
 			}
 		}
 	}
